@@ -78,14 +78,14 @@ theorem phrase_combine_2 (a b : Int) :
       (findMatch ([] : Vars Rat) pat [SCP.C05.ti (dur a), SCP.C05.ti (dur b)]).fields =
         [("1", SCP.C05.ti (dur a)), ("2", SCP.C05.ti (dur b))] := by
   refine ⟨_, rfl, ?_, ?_⟩ <;>
-    simp [findMatch, findMatch.go, SCP.C05.ti, dur, infoEq, tokEq, tokFieldCompare, fieldNameOf, Field.name, Fields.insert]
+    simp [findMatch, findMatch.go, sameTok, SCP.C05.ti, dur, infoEq, tokEq, tokFieldCompare, fieldNameOf, Field.name, Fields.insert]
 
 theorem phrase_combine_6 (a b d e f g : Int) :
     ∃ pat, (Gen.rule_en_combine_durations Rat).patterns[0]? = some pat ∧
       (findMatch ([] : Vars Rat) pat [SCP.C05.ti (dur a), SCP.C05.ti (dur b), SCP.C05.ti (dur d), SCP.C05.ti (dur e),
         SCP.C05.ti (dur f), SCP.C05.ti (dur g)]).found = true := by
   refine ⟨_, rfl, ?_⟩
-  simp [findMatch, findMatch.go, SCP.C05.ti, dur, infoEq, tokEq, tokFieldCompare, fieldNameOf, Field.name, Fields.insert]
+  simp [findMatch, findMatch.go, sameTok, SCP.C05.ti, dur, infoEq, tokEq, tokFieldCompare, fieldNameOf, Field.name, Fields.insert]
 
 /-! ### greedy printing -/
 
